@@ -185,3 +185,39 @@ def translate_call(text, w, start, term):
         if d in REG and REG[d][1] == 64 and re.match(r"^-?(0x[0-9a-f]+|\d+)$", s):
             return "movi %d %d" % (REG[d][0], num(s) % (1 << 64))
     raise Unsupported(text)
+
+
+def translate_br(ins, w, start, target):
+    """[cmp <cell>,0 ; je/jne <addr>] -> X86Call.v syntax; the jump must go to `target` (code offset)"""
+    if len(ins) != 2:
+        raise Unsupported("branch template of %d instructions: %s" % (len(ins), " ; ".join(ins)))
+    m = re.match(r"^cmp\s+(.*),\s*(0x0|0)$", ins[0].strip())
+    if not m:
+        raise Unsupported(ins[0])
+    cell = mem_operand(m.group(1).strip(), w)
+    if not cell.startswith("c"):
+        raise Unsupported(ins[0])
+    j = re.match(r"^(je|jne)\s+(-?0x[0-9a-f]+)$", ins[1].strip())
+    if not j:
+        raise Unsupported(ins[1])
+    if num(j.group(2)) != target - start:
+        raise Unsupported("branch jumps to %s, instruction target is at %s" % (j.group(2), hex(target - start)))
+    return "cmpcell %s;%s" % (cell[1:], j.group(1))
+
+
+INSTR_LEN = {"n": 1, "s": 3, "m": 2, "i": 2, "o": 2, "z": 3, "nz": 3, "a": 7, "u": 7, "x": 7, "c": 5}
+
+
+def split_bc(text):
+    """bytecode text -> (header tokens, [(live, [instruction tokens])])"""
+    tk = text.split()
+    hdr, body = tk[:4], tk[4:]
+    out, i = [], 0
+    while i < len(body):
+        live = body[i]
+        n = INSTR_LEN[body[i + 1]]
+        out.append((live, body[i + 1:i + 1 + n]))
+        i += 1 + n
+    if len(out) != int(hdr[3]):
+        raise ValueError("bytecode text: %d instructions announced, %d parsed" % (int(hdr[3]), len(out)))
+    return hdr, out
